@@ -209,7 +209,7 @@ class FnAnalysis:
         k = st.rng.get(t)
         if k is not None:
             r = meet(r, k)
-        if st.rel and depth < 2 and not is_c(t):
+        if st.rel and depth < 6 and not is_c(t):
             for op, u, v in st.rel:
                 if u == t and v != t:
                     hb = self.range_of(st, v, depth + 3)[1]
@@ -780,6 +780,14 @@ class FnAnalysis:
                     continue
                 outs[succ] = s2 if succ not in outs else self.join(outs[succ], s2, succ)
             for succ, s2 in outs.items():
+                if succ in heads and bb not in loops[succ]:
+                    prev = edge.get((bb, succ))
+                    if prev is not None and prev.key() != s2.key():
+                        # the loop is entered with a new state: forget what its back edges carried from the previous
+                        # entry (ordering facts are 'must' information; stale back edges would erase them for good)
+                        for p in [p for p in preds.get(succ, ()) if p in loops[succ]]:
+                            edge.pop((p, succ), None)
+                            preds[succ].discard(p)
                 edge[(bb, succ)] = s2
                 preds.setdefault(succ, set()).add(bb)
                 keep = None
